@@ -48,6 +48,9 @@ type SFRaw struct {
 	FrameLen uint32 `json:"framelen"`
 	Stripped uint32 `json:"stripped"`
 	Pkt      L234   `json:"pkt"`
+	// Cut > 0: the sampled header holds only the first Cut-1 octets of the packet (agents sample 64 / 128 / any
+	// configured number of octets; the cut may fall inside any protocol header). Robustness checks only.
+	Cut int `json:"cut,omitempty"`
 }
 
 type SFRouter struct {
@@ -104,6 +107,9 @@ func (r *SFFlowRec) encode() []byte {
 	case "raw":
 		format = 1
 		h := r.Raw.Pkt.Bytes()
+		if r.Raw.Cut > 0 && r.Raw.Cut <= len(h) {
+			h = h[:r.Raw.Cut-1] // the agent sampled only the first Cut-1 octets of the packet
+		}
 		body = put32(body, r.Raw.Pkt.Proto)
 		body = put32(body, r.Raw.FrameLen)
 		body = put32(body, r.Raw.Stripped)
